@@ -9,6 +9,7 @@ import (
 	"runtime/debug"
 	"sort"
 	"strings"
+	"sync"
 	"sync/atomic"
 	"testing"
 	"testing/synctest"
@@ -38,6 +39,17 @@ type mineRet struct {
 	panic string
 }
 
+type inputRec struct {
+	base     uint64
+	lanes    [64]uint64
+	mismatch bool
+}
+
+var (
+	inputCh    = make(chan inputRec, 1)
+	mismatchCh = make(chan struct{}, 1) // a lane's input buffer encoded another nonce than base+lane (informational)
+)
+
 var curStub atomic.Pointer[stub] // set by the root before the actors of a run are started
 
 func init() {
@@ -45,10 +57,60 @@ func init() {
 	pow2.SimYield = kernel.Yield
 	st := func(l, h *[ref.HashLen]uint, nonce uint64) {
 		if s := curStub.Load(); s != nil {
-			s.fill(l, h, nonce)
+			var rec inputRec
+			have := false
+			kernel.Hidden(func() {
+				select {
+				case rec = <-inputCh:
+					have = true
+				default:
+				}
+			})
+			var lanes *[64]uint64
+			if have && rec.base == nonce {
+				lanes = &rec.lanes
+			}
+			s.fill(l, h, nonce, lanes)
 			logBatch(s, nonce)
 		}
 	}
+	// the batch input hook: which nonce does each lane's buffer really encode? The record travels from SimInput to
+	// the SimState call that follows it in the same worker through a one-slot channel inside a hidden region, never
+	// through shared memory: anything workers share here would either be reported by the race detector or, worse,
+	// order the workers and hide races of the code under test.
+	in := func(buf []trinary.Trits, nonce uint64) {
+		if curStub.Load() == nil || len(buf) != 64 {
+			return
+		}
+		rec := inputRec{base: nonce}
+		for i := 0; i < 64; i++ {
+			if len(buf[i]) < 240 {
+				return
+			}
+			n, ok := decodeLaneNonce(buf[i][192:240], nonce+uint64(i))
+			rec.lanes[i] = n
+			if !ok || n != nonce+uint64(i) {
+				rec.mismatch = true
+			}
+		}
+		kernel.Hidden(func() {
+			select {
+			case <-inputCh: // drop a stale record
+			default:
+			}
+			select {
+			case inputCh <- rec:
+			default:
+			}
+			if rec.mismatch {
+				select {
+				case mismatchCh <- struct{}{}:
+				default:
+				}
+			}
+		})
+	}
+	pow1.SimInput, pow2.SimInput = in, in
 	pow1.SimState = st
 	pow2.SimState = st
 	// Score's hash hook: in stub-hash runs Score judges a message by the same seeded oracle the workers saw
@@ -92,6 +154,31 @@ func worker2(n int) *pow2.Worker {
 	}
 	workers2[n] = pow2.New(n)
 	return workers2[n]
+}
+
+// foreignCtx is a context.Context that does not come from package context: applications wrap their own shutdown
+// scopes like this. Code that hands such a context to context.WithCancel / context.AfterFunc makes the context
+// package start a goroutine that watches Done(), which is one more thing Mine has to clean up.
+type foreignCtx struct {
+	done chan struct{}
+	err  atomic.Value
+	once sync.Once
+}
+
+func (c *foreignCtx) Deadline() (time.Time, bool) { return time.Time{}, false }
+func (c *foreignCtx) Done() <-chan struct{}       { return c.done }
+func (c *foreignCtx) Value(any) any               { return nil }
+func (c *foreignCtx) Err() error {
+	if e, ok := c.err.Load().(error); ok {
+		return e
+	}
+	return nil
+}
+func (c *foreignCtx) cancel() {
+	c.once.Do(func() {
+		c.err.Store(context.Canceled)
+		close(c.done)
+	})
 }
 
 // run state shared by the helpers below (root goroutine only)
@@ -214,6 +301,10 @@ func (w *world) simulate(choices []int) {
 		cancels = append(cancels, c1)
 		ctx, cancel = context.WithCancel(ctx)
 		cancels = append(cancels, cancel)
+	case cfg.ForeignCtx:
+		fc := &foreignCtx{done: make(chan struct{})}
+		ctx, cancel = fc, fc.cancel
+		cancels = append(cancels, cancel)
 	default:
 		ctx, cancel = context.WithCancel(context.Background())
 		cancels = append(cancels, cancel)
@@ -272,6 +363,9 @@ func (w *world) simulate(choices []int) {
 	parkedSince := map[int]int{}
 	afterReturn := map[int]int{} // steps taken by each actor after Mine returned
 	hardCap := cfg.StepCap + 4000
+	if cfg.HardCap > 0 {
+		hardCap = cfg.HardCap
+	}
 
 	for {
 		k.Quiesce()
@@ -882,6 +976,11 @@ func (w *world) judgePassOver(st *stub, n uint64, p *big.Int) {
 
 func (w *world) finish() {
 	cfg := w.cfg
+	select {
+	case <-mismatchCh:
+		w.probes["lane_input_encodes_other_nonce"] = 1
+	default:
+	}
 	w.res.Faults, w.res.Probes = w.faults, w.probes
 	w.res.SimNs = w.simNs + int64(w.res.Steps)*int64(stepTime)
 	if w.res.Tags == nil {
@@ -891,9 +990,20 @@ func (w *world) finish() {
 	w.res.Tags["workers"] = fmt.Sprint(cfg.Workers)
 	w.res.Tags["hash"] = cfg.Hash
 	w.res.Tags["fault"] = cfg.Fault.Kind
+	switch {
+	case cfg.Background:
+		w.res.Tags["context"] = "background"
+	case cfg.ForeignCtx:
+		w.res.Tags["context"] = "foreign"
+	default:
+		w.res.Tags["context"] = "package-context"
+	}
 	w.res.Tags["strategy"] = cfg.Strat.Kind
 	w.res.Tags["order"] = strings.Join(w.events, "<")
 	w.res.Tags["outcome"] = w.res.Outcome
+	if strings.HasPrefix(cfg.TargetNote, "marathon") {
+		w.probes["marathon_cancelled_after_16k_batches"] = 1
+	}
 	// non-trivial: at least two different actors interleaved and a find or a fault occurred
 	w.res.Nontriv = w.res.Switches >= 2 && (len(w.found) > 0 || w.cancelDelivered)
 	if w.res.Class != "" {
